@@ -1,12 +1,13 @@
 """C20 — containers are self-describing (P-tier: what TOCSchemas._register embeds is what the plugin system reports; records are dropped exactly when unused)."""
-from . import epnames, schema_core, toc, tocread, tocreg, wrappers
+from . import epnames, pgschema, schema_core, toc, tocread, tocreg, wrappers
 
 
 def build(reg):
     specs = toc.add_toc(reg) + tocreg.add_tocreg(reg) + schema_core.build_c20_schema(reg) + wrappers.add_destroy(reg) + epnames.add_stored(reg) + tocread.add_tocread(reg) + tocread.add_tocread2(reg)  # (and: an object's schema is read back from its node name); a meta-less copy must not unregister what the originals still use
+    specs += [x for x in pgschema.add_pgschema(reg) if 'C20' in x.props]  # the parent chain that gets embedded as 'compat'
     return {
         "verify": specs,
         "lemmas": [],
-        "trusted": tocread.T_TOCREAD + [toc.T_PLUGIN] + tocreg.T_TOCREG + tocreg.T_PLUGINSYS,
+        "trusted": pgschema.T_PGS + tocread.T_TOCREAD + [toc.T_PLUGIN] + tocreg.T_TOCREG + tocreg.T_PLUGINSYS,
         "assumptions": ["JSON-Schema generation (schema_json) and validation of stored objects against it are pydantic's / jsonschema's and checked bounded"],
     }
